@@ -524,6 +524,15 @@ class HistRun:
                 self.queue = [follow]
                 return {"op": "report", "report": "partial", "coll": c.path, "kind": r.choice(["multiget", "query"]), "mode": "expand" if (rec and r.random() < 0.7) else r.choice(["props", "expand"]),
                         "names": [n], "salt": r.getrandbits(32)}
+        if self.prop == "C14" and r.random() < 0.07:
+            # bytes the repository already knows as a plain file are not therefore a calendar object
+            cands = [(c, n) for c in self.store_colls(("calendar",)) for n, mm in sorted(c.members.items()) if mm.served and n.endswith(".ics")]
+            if cands:
+                c, n = r.choice(cands)
+                self.fresh += 1
+                junk = ("meeting notes %d\nnot a calendar\n" % self.fresh).encode()
+                self.queue = [{"op": "put", "coll": c.path, "name": n, "body": b2s(junk), "ctype": "text/calendar", "invalid": "text"}]
+                return {"op": "put", "coll": c.path, "name": "notes%d.txt" % self.fresh, "body": b2s(junk), "ctype": "text/plain", "salt": r.getrandbits(32)}
         if self.prop == "C07" and r.random() < 0.08:
             # a member, a token, then the same bytes under the adjacent name, then a sync from that token
             c = self.pick_coll(("addressbook", "plain", "calendar"))
